@@ -1,11 +1,11 @@
 (* Recorded findings for C04 (findings_proposed/C04.txt).  If this file stops compiling a finding is stale, which the
    check reports as such (it is not a violation). *)
-From TT Require Import Base.Prelude Base.ImscXml Model.ImscTime Model.ImscTiming Model.ImscTriggers Spec.TtmlTimingSpec.
+From TT Require Import Base.Prelude Base.ImscXml Model.ImscTime Model.ImscStyles Model.ImscTiming Model.ImscTriggers Spec.TtmlTimingSpec.
 From TT Require Import Proofs.C04.TimeSyntax Proofs.C04.Interval Proofs.C04.Total.
 From Coq Require Import QArith.
 Local Open Scope Z_scope.
 
-Definition ev0 : env := mkEnv 1 (30 # 1) [] (fun _ _ => false).
+Definition ev0 : env := mkEnv 1 (30 # 1) [] (fun _ _ => None) (fun _ _ => true) [].
 Definition pc0 : pctx := mkPctx true None 0 false [] true.
 
 (* seq-indefinite-sibling: <div timeContainer="seq"><p>a</p><p>b</p></div> aborts the read (TypeError), although the
@@ -23,7 +23,7 @@ Proof.
 Qed.
 
 (* zero-rate-division: ttp:frameRate="0" makes begin="10f" raise ZeroDivisionError *)
-Theorem C04_zero_rate_refuted : exists x, process (mkEnv 1 0 [] (fun _ _ => false)) pc0 x = PErr 2.
+Theorem C04_zero_rate_refuted : exists x, process (mkEnv 1 0 [] (fun _ _ => None) (fun _ _ => true) []) pc0 x = PErr 2.
 Proof. exists (X T_p [(A_begin, [49; 48; 102])] None None []). reflexivity. Qed.
 
 (* tickrate-default: under ttp:frameRate="25" and no ttp:tickRate the reader uses 1 tick per second, TTML2 gives 25 *)
@@ -46,3 +46,16 @@ Qed.
 
 Print Assumptions C04_read_total_refuted.  Print Assumptions C04_zero_rate_refuted.  Print Assumptions C04_tick_default_refuted.
 Print Assumptions C04_time_reject_refuted.  Print Assumptions C04_time_reject_newline_refuted.
+
+(* style-invalid-value-abort: <style xml:id="s1" tts:extent="1em 1em"/> parses but is not a valid model value; referenced from a p
+   it makes set_style raise ValueError outside any handler (outcome 5), while the same attribute inline is ignored *)
+From TT Require Import Model.ImscWrite Model.ImscWriteCases Model.ImscCases Gen.ImscTables.
+Definition extent_attr : qname * text := ((NS_TTS, [101; 120; 116; 101; 110; 116]), [49; 101; 109; 32; 49; 101; 109]).
+Definition ev_style : env :=
+  mkEnv 1 (30 # 1) [] (to_model_inst []) valid_inst
+        [mkSty [115; 49] (collect (to_model_inst []) [extent_attr] []) []].
+Theorem C04_style_abort_refuted :
+  process ev_style pc0 (X T_p [(A_style, [115; 49])] (Some [97]) None []) = PErr 5 /\
+  match process ev_style pc0 (X T_p [extent_attr] (Some [97]) None []) with POk _ => True | _ => False end.
+Proof. split; vm_compute; [reflexivity|exact I]. Qed.
+Print Assumptions C04_style_abort_refuted.
